@@ -10,6 +10,24 @@ TRUSTED_BASE = [
 ]
 
 
+ENV_REFLECT = "reflect behaves as specified in coq/Model/Reflect.v (type shapes and values are dumped by the harness's own reflection walk)"
+ENV_SQL = "database/sql behaves as specified in the model (Rows, Stmt, Tx, pool, context handling: DESIGN.md 3.2); the specification is exercised against the real database/sql by this run"
+ENV_GC = "the Go garbage collector runs a finalizer only when no handle, closure, frame or Iterator references the object (reachability rule of coq/Model/Cache.v)"
+ASSUMPTIONS = {
+    "C01": ["the unicode classifier tables and the scanner constants are the ones generated from Go / from the source in this run"],
+    "C02": ["the unicode classifier tables and the scanner constants are the ones generated from Go / from the source in this run"],
+    "C19": ["the unicode classifier tables and the scanner constants are the ones generated from Go / from the source in this run"],
+    "C03": [ENV_REFLECT], "C04": [ENV_REFLECT], "C05": [ENV_REFLECT], "C07": [ENV_REFLECT], "C08": [ENV_REFLECT, ENV_SQL],
+    "C06": [ENV_REFLECT, "database/sql convertAssign for int64 / NULL sources behaves as Scan.conv"],
+    "C09": [ENV_SQL, ENV_GC], "C10": [ENV_SQL, ENV_GC], "C11": [ENV_SQL, ENV_GC], "C20": [ENV_SQL],
+    "C12": [ENV_SQL, "sql.Tx is linearisable (each database/sql call is one atomic step)"],
+    "C13": [ENV_SQL], "C14": [ENV_SQL, "cancellation of the query's context is an atomic step"], "C15": [ENV_SQL, ENV_REFLECT],
+    "C16": [ENV_REFLECT, "Go map iteration order is an arbitrary permutation; data-race freedom is outside the model"],
+    "C17": [ENV_REFLECT, "the SQL engine behaves as coq/Model/MiniSql.v on the generated statements (SQLite itself is only exercised)"],
+    "C18": [ENV_REFLECT, "panics can only arise from the reflect / database/sql operations whose failure conditions the model makes explicit"],
+}
+
+
 def sh(cmd, cwd=None, env=None, timeout=7200, inp=None):
     p = subprocess.run(cmd, cwd=cwd, env=env, timeout=timeout, input=inp, shell=isinstance(cmd, str),
                        stdout=subprocess.PIPE, stderr=subprocess.STDOUT, text=True)
